@@ -1123,6 +1123,419 @@ theorem json_roundtrip [Inhabited α] (d : DataDict α) (h : ∀ e ∈ d, e.2.wf
 example : decodeField (encodeField (Field.array [0, 3] ([] : List Nat))) = Field.array [0] [] := by
   rfl
 
+/-! ### save / load HISTORIES in one process (file store) -/
+
+section histories
+
+theorem run_snoc (sp : Spec) (p : Proc α) (ops : List (Op α)) (op : Op α) :
+    run sp p (ops ++ [op]) = step sp (run sp p ops) op := by
+  simp [run, List.foldl_append]
+
+theorem read_write_same (st : Store α) (f : String) (d : Dict α) : (st.write f d).read? f = some d := by
+  simp [Store.write, Store.read?]
+
+theorem read_write_other (st : Store α) (f g : String) (d : Dict α) (h : g ≠ f) :
+    (st.write g d).read? f = st.read? f := by
+  simp [Store.write, Store.read?, h]
+
+theorem step_load_files (sp : Spec) (p : Proc α) (g : String) (s0 : State α) :
+    (step sp p (.load g s0)).files = p.files := by
+  simp only [step]
+  split <;> rfl
+
+/-- **the file store after ANY history**: under every name lies what the LAST `save` to that name wrote (the
+saved model as it was at that moment), whatever was solved, saved under other names or loaded in between -/
+theorem files_after_history (sp : Spec) (p : Proc α) (f : String) (opsRev : List (Op α)) :
+    (run sp p opsRev.reverse).files.read? (npzName f) =
+      match lastSaved sp p f opsRev with
+      | some s => some (save sp s)
+      | none => p.files.read? (npzName f) := by
+  induction opsRev with
+  | nil => simp [run, lastSaved]
+  | cons op before ih =>
+    rw [List.reverse_cons, run_snoc]
+    cases op with
+    | solve i s' =>
+      simp only [lastSaved]
+      exact ih
+    | load g s0 =>
+      simp only [lastSaved]
+      rw [step_load_files]
+      exact ih
+    | save i g =>
+      simp only [step, lastSaved]
+      cases hm : (run sp p before.reverse).models[i]? with
+      | none =>
+        by_cases hg : npzName g = npzName f
+        · simp only [hg, if_true]; exact ih
+        · simp only [hg, if_false]; exact ih
+      | some s =>
+        by_cases hg : npzName g = npzName f
+        · simp only [hg, if_true]; exact read_write_same _ _ _
+        · simp only [hg, if_false]
+          rw [read_write_other _ _ _ _ hg]
+          exact ih
+
+/-- **`load` returns the last save point — for EVERY history.**  Tables as in `roundtrip`.  Take any process, any
+sequence `ops` of solve / save / load calls on any number of model objects and file names, and a file name `f` to
+which the history has saved; let `s` be the state the saved object was in at the moment of the LAST `save` to `f`
+(mandatory slots holding arrays).  Then `load(f)` into any freshly constructed model succeeds, the loaded object
+joins the live models, and every slot read by `fromDict` holds exactly what it held in `s` — not what an earlier
+save to that name wrote, not what the source model has become since. -/
+theorem load_returns_last_save (sp : Spec) (hnd : (sp.writes.map Entry.key).Nodup)
+    (hcov : ∀ e ∈ sp.reads, covers sp.writes e = true)
+    (p : Proc α) (ops : List (Op α)) (f : String) (s s0 : State α)
+    (hlast : lastSaved sp p f ops.reverse = some s)
+    (hnn : ∀ w ∈ sp.writes, w.opt = false → (s w.slot).isNone = false) :
+    ∃ s', loadFile sp (run sp p ops) f s0 = some (.ok s') ∧
+      (run sp p (ops ++ [.load f s0])).models = (run sp p ops).models ++ [s'] ∧
+      (∀ e ∈ sp.reads, s' e.slot = s e.slot) ∧
+      (∀ x, (∀ e ∈ sp.reads, e.slot ≠ x) → s' x = applyResets sp.resets s0 x) := by
+  obtain ⟨s', h1, h2, h3⟩ := roundtrip sp hnd hcov s s0 hnn
+  have hf := files_after_history sp p f ops.reverse
+  rw [List.reverse_reverse, hlast] at hf
+  have hl : loadFile sp (run sp p ops) f s0 = some (.ok s') := by
+    unfold loadFile
+    rw [hf]
+    simp [h1]
+  refine ⟨s', hl, ?_, h2, h3⟩
+  rw [run_snoc]
+  simp only [step, hl]
+
+/-- … for the precipitation model: every observable (sixteen histories; per phase PBM data, size distribution,
+bounds, sizes, aspect-ratio table), any number of distinct phases -/
+theorem precip_load_returns_last_save (phases : List String) (hph : phases.Nodup)
+    (p : Proc α) (ops : List (Op α)) (f : String) (s s0 : State α)
+    (hlast : lastSaved (precipSpec phases) p f ops.reverse = some s)
+    (hnn : ∀ w ∈ (precipSpec phases).writes, (s w.slot).isNone = false) :
+    ∃ s', loadFile (precipSpec phases) (run (precipSpec phases) p ops) f s0 = some (.ok s') ∧
+      ∀ o ∈ precipObservables phases, s' o = s o := by
+  obtain ⟨hg, hp, hpf⟩ := precip_keys_ok
+  obtain ⟨s', h1, _, h2, _⟩ := load_returns_last_save (precipSpec phases)
+    (expand_keys_nodup _ _ _ hg hp hpf hph)
+    (covers_expand _ _ _ _ _ precip_reads_covered.1 precip_reads_covered.2) p ops f s s0 hlast (fun w hw _ => hnn w hw)
+  refine ⟨s', h1, fun o ho => ?_⟩
+  obtain ⟨e, he, rfl⟩ := precip_observable_read phases o ho
+  exact h2 e he
+
+/-- … for the diffusion model, whatever the recording options -/
+theorem diff_load_returns_last_save (p : Proc α) (ops : List (Op α)) (f : String) (s s0 : State α)
+    (hlast : lastSaved diffSpec p f ops.reverse = some s)
+    (ht : (s "t").isNone = false) (hx : (s "x").isNone = false) :
+    ∃ s', loadFile diffSpec (run diffSpec p ops) f s0 = some (.ok s') ∧ ∀ o ∈ diffObservables, s' o = s o := by
+  obtain ⟨hc, hk, hobs, _⟩ := diff_tables_ok
+  obtain ⟨s', h1, _, h2, _⟩ := load_returns_last_save diffSpec hk hc p ops f s s0 hlast (by
+    intro w hw ho
+    rcases diff_recording_lines_optional w hw ho with h | h
+    · rw [h]; exact ht
+    · rw [h]; exact hx)
+  refine ⟨s', h1, fun o ho => ?_⟩
+  obtain ⟨e, he, hs⟩ := List.mem_map.mp (hobs o ho).2
+  exact hs ▸ h2 e he
+
+/-- the two spellings of a file name are the same file -/
+theorem npzName_idem_example : npzName "ck" = "ck.npz" ∧ npzName "ck.npz" = "ck.npz" := by decide
+
+/-! witness: the variant with a read cache that `save` does not invalidate -/
+
+def ckSpec : Spec :=
+  { writes := [("finalTime", "t", false), ("finalX", "x", false)],
+    reads := [("finalTime", "t", false), ("finalX", "x", false)] }
+
+def ckA : State Nat := fun _ => .arr [] [50]
+def ckB : State Nat := fun _ => .arr [] [5550]
+def ckFresh : State Nat := fun _ => .none
+def ckProc : Proc Nat := { models := [ckA], files := [] }
+
+/-- solve → save(ck) → load(ck) → solve on → save(ck): a checkpoint file written twice -/
+def checkpointHistory : List (Op Nat) :=
+  [.save 0 "ck", .load "ck" ckFresh, .solve 0 ckB, .save 0 "ck"]
+
+def tOf (o : Option (Except Err (State Nat))) : Option (List Nat) :=
+  match o with
+  | some (.ok s) => (match s "t" with | .arr _ d => some d | .none => none)
+  | _ => none
+
+/-- the last save point of the checkpoint history is the second one (t = 5550) … -/
+theorem checkpoint_last_saved :
+    (lastSaved ckSpec ckProc "ck" checkpointHistory.reverse).map (fun s => match s "t" with | .arr _ d => d | .none => []) = some [5550] := by
+  decide
+
+/-- … the code's `load` returns it … -/
+theorem checkpoint_load_ok : tOf (loadFile ckSpec (run ckSpec ckProc checkpointHistory) "ck" ckFresh) = some [5550] := by
+  decide
+
+/-- … and the cached variant returns the FIRST save point (t = 50): `load_returns_last_save` fails for it -/
+theorem cached_load_returns_earlier_save_point :
+    tOf (loadFileCached ckSpec (runCached ckSpec ckProc checkpointHistory) "ck" ckFresh).1 = some [50] := by
+  decide
+
+/-- non-vacuity of `load_returns_last_save`: the checkpoint history meets its hypotheses -/
+example : ∃ s', loadFile ckSpec (run ckSpec ckProc checkpointHistory) "ck.npz" ckFresh = some (.ok s') ∧
+    s' "t" = .arr [] [5550] := by
+  have hl : lastSaved ckSpec ckProc "ck.npz" checkpointHistory.reverse = some ckB := by rfl
+  obtain ⟨s', h1, _, h2, _⟩ := load_returns_last_save ckSpec (by decide) (by decide) ckProc checkpointHistory "ck.npz"
+    ckB ckFresh hl (by intro w _ _; rfl)
+  exact ⟨s', h1, h2 ("finalTime", "t", false) (by simp [ckSpec])⟩
+
+end histories
+
+/-! ### fitting state of a surrogate: training orders, rebuild from file -/
+
+section surrogate_fit
+open KawinV.SurrogateFit
+
+variable {δ π : Type}
+
+/-- hypothesis "training does not mutate the shared settings": assembling an input leaves `kernelKwargs` alone -/
+def Inert (h : Hooks π) : Prop := ∀ s c, h.settings s c = s
+
+/-- what a (re)fit of one quantity leaves as its kernel -/
+def fitted (h : Hooks π) (st : Settings) (d : Option (Train δ π)) (old : Option (Fit δ π)) : Option (Fit δ π) :=
+  match d with
+  | some t => if t.cols = 0 then old else some { settings := st, payload := t.payload, nodes := h.points t.points }
+  | none => old
+
+theorem upd_same {β : Type} (f : Q → Option β) (q : Q) (v : Option β) : upd f q v q = v := by simp [upd]
+theorem upd_other {β : Type} (f : Q → Option β) (q q' : Q) (v : Option β) (h : q' ≠ q) : upd f q v q' = f q' := by
+  simp [upd, h]
+
+theorem fitQ_spec (h : Hooks π) (hi : Inert h) (s : Surr δ π) (q : Q) :
+    (fitQ h s q).settings = s.settings ∧ (fitQ h s q).data = s.data ∧
+    ∀ q', (fitQ h s q).models q' = if q' = q then fitted h s.settings (s.data q) (s.models q) else s.models q' := by
+  cases hd : s.data q with
+  | none =>
+    have hf : fitQ h s q = s := by simp [fitQ, hd]
+    rw [hf]
+    refine ⟨rfl, rfl, fun q' => ?_⟩
+    by_cases hq : q' = q <;> simp [hq, fitted]
+  | some t =>
+    by_cases hc : t.cols = 0
+    · have hf : fitQ h s q = s := by simp [fitQ, hd, hc]
+      rw [hf]
+      refine ⟨rfl, rfl, fun q' => ?_⟩
+      by_cases hq : q' = q <;> simp [hq, fitted, hc]
+    · have hs : h.settings s.settings t.cols = s.settings := hi _ _
+      have hf : fitQ h s q = (Surr.mk s.settings s.data
+          (upd s.models q (some (Fit.mk s.settings t.payload (h.points t.points))))) := by
+        simp [fitQ, hd, hc, hs]
+      rw [hf]
+      refine ⟨rfl, rfl, fun q' => ?_⟩
+      by_cases hq : q' = q <;> simp [hq, fitted, hc, upd]
+
+theorem stepS_settings (h : Hooks π) (hi : Inert h) (s : Surr δ π) (op : Op δ π) : (stepS h s op).settings = s.settings := by
+  cases op with
+  | train q t => exact (fitQ_spec h hi _ q).1
+  | query q =>
+    simp only [stepS]
+    split
+    · exact hi _ _
+    · rfl
+
+/-- training and querying never change the settings the object was constructed with -/
+theorem settings_const (h : Hooks π) (hi : Inert h) (s : Surr δ π) (ops : List (Op δ π)) :
+    (runS h s ops).settings = s.settings := by
+  induction ops generalizing s with
+  | nil => rfl
+  | cons op r ih =>
+    simp only [runS, List.foldl_cons] at ih ⊢
+    rw [ih, stepS_settings h hi]
+
+theorem runS_snoc (h : Hooks π) (s : Surr δ π) (ops : List (Op δ π)) (op : Op δ π) :
+    runS h s (ops ++ [op]) = stepS h (runS h s ops) op := by
+  simp [runS, List.foldl_append]
+
+/-- the kernel of quantity `q` after ANY history on a new object: fitted from the data of the LAST training of `q`
+with the constructor settings — nothing else of the history enters -/
+theorem models_after_history (h : Hooks π) (hi : Inert h) (s0 : Settings) (q : Q) (opsRev : List (Op δ π))
+    (hc : ∀ q' t, Op.train q' t ∈ opsRev → t.cols ≠ 0) :
+    (runS h (empty δ π s0) opsRev.reverse).data q = lastTrained q opsRev ∧
+    (runS h (empty δ π s0) opsRev.reverse).models q =
+      (lastTrained q opsRev).map (fun t => { settings := s0, payload := t.payload, nodes := h.points t.points }) := by
+  induction opsRev with
+  | nil => simp [runS, empty, lastTrained]
+  | cons op before ih =>
+    have ihb := ih (fun q' t hm => hc q' t (List.mem_cons_of_mem _ hm))
+    rw [List.reverse_cons, runS_snoc]
+    have hset : (runS h (empty δ π s0) before.reverse).settings = s0 := settings_const h hi _ _
+    cases op with
+    | query q' =>
+      simp only [lastTrained, stepS]
+      split
+      · exact ihb
+      · exact ihb
+    | train q' t =>
+      simp only [stepS, lastTrained]
+      have hcols : t.cols ≠ 0 := hc q' t (by simp)
+      obtain ⟨_, hd, hm⟩ := fitQ_spec h hi { (runS h (empty δ π s0) before.reverse) with data := upd (runS h (empty δ π s0) before.reverse).data q' (some t) } q'
+      rw [hd, hm]
+      by_cases hq : q' = q
+      · subst hq
+        simp [upd_same, fitted, hcols, hset]
+      · have hq' : q ≠ q' := fun e => hq e.symm
+        simp only [hq, hq', if_false]
+        rw [upd_other _ _ _ _ hq']
+        exact ihb
+
+/-- **order independence**: two histories (any trainings and getter calls of any quantities, in any order) whose
+last training of `q` used the same data leave the same kernel for `q` -/
+theorem prediction_independent_of_order (h : Hooks π) (hi : Inert h) (s0 : Settings) (q : Q)
+    (ops1 ops2 : List (Op δ π))
+    (hc1 : ∀ q' t, Op.train q' t ∈ ops1 → t.cols ≠ 0) (hc2 : ∀ q' t, Op.train q' t ∈ ops2 → t.cols ≠ 0)
+    (hsame : lastTrained q ops1.reverse = lastTrained q ops2.reverse) :
+    (runS h (empty δ π s0) ops1).models q = (runS h (empty δ π s0) ops2).models q := by
+  have h1 := (models_after_history h hi s0 q ops1.reverse (by simpa using hc1)).2
+  have h2 := (models_after_history h hi s0 q ops2.reverse (by simpa using hc2)).2
+  rw [List.reverse_reverse] at h1 h2
+  rw [h1, h2, hsame]
+
+/-- … in particular the kernel of `q` is the one of an object on which ONLY `q` was trained -/
+theorem prediction_as_if_trained_alone (h : Hooks π) (hi : Inert h) (s0 : Settings) (q : Q) (t : Train δ π)
+    (ops : List (Op δ π)) (hc : ∀ q' t, Op.train q' t ∈ ops → t.cols ≠ 0) (hl : lastTrained q ops.reverse = some t) :
+    (runS h (empty δ π s0) ops).models q = (runS h (empty δ π s0) [.train q t]).models q := by
+  have ht : t.cols ≠ 0 := by
+    have : ∀ (l : List (Op δ π)), lastTrained q l = some t → Op.train q t ∈ l := by
+      intro l
+      induction l with
+      | nil => simp [lastTrained]
+      | cons op r ih =>
+        cases op with
+        | query _ => simp only [lastTrained]; intro hh; exact List.mem_cons_of_mem _ (ih hh)
+        | train q' t' =>
+          simp only [lastTrained]
+          by_cases hq : q' = q
+          · simp only [hq, if_true]; intro hh; cases hh; simp
+          · simp only [hq, if_false]; intro hh; exact List.mem_cons_of_mem _ (ih hh)
+    exact hc q t (by simpa using this _ hl)
+  apply prediction_independent_of_order h hi s0 q ops [.train q t] hc
+  · intro q' t' hm
+    simp at hm
+    rw [hm.2]; exact ht
+  · rw [hl]; simp [lastTrained]
+
+theorem foldl_fitQ (h : Hooks π) (hi : Inert h) (L : List Q) (s : Surr δ π) :
+    (L.foldl (fitQ h) s).settings = s.settings ∧ (L.foldl (fitQ h) s).data = s.data ∧
+    ∀ q, (L.foldl (fitQ h) s).models q = if q ∈ L then fitted h s.settings (s.data q) (s.models q) else s.models q := by
+  induction L generalizing s with
+  | nil => simp
+  | cons a L ih =>
+    obtain ⟨h1, h2, h3⟩ := fitQ_spec h hi s a
+    obtain ⟨i1, i2, i3⟩ := ih (fitQ h s a)
+    simp only [List.foldl_cons]
+    refine ⟨i1.trans h1, i2.trans h2, fun q => ?_⟩
+    rw [i3, h1, h2, h3]
+    by_cases hqa : q = a
+    · subst hqa
+      simp only [List.mem_cons, true_or, if_true]
+      by_cases hm : q ∈ L
+      · simp only [hm, if_true]
+        unfold fitted
+        cases s.data q with
+        | none => rfl
+        | some t => by_cases hc : t.cols = 0 <;> simp [hc]
+      · simp [hm]
+    · simp [hqa]
+
+/-- **rebuilt = original.**  If assembling an input does not touch the shared settings, then for EVERY history of
+trainings and getter calls (all quantities, any order, any axis counts ≥ 1, retraining allowed) on an object
+constructed with settings `s0`, the object rebuilt from its file by a constructor with the same settings holds,
+for every quantity, the same kernel: same settings, same data, same rows. -/
+theorem rebuild_equals_original (h : Hooks π) (hi : Inert h) (s0 : Settings) (ops : List (Op δ π))
+    (hc : ∀ q' t, Op.train q' t ∈ ops → t.cols ≠ 0) (q : Q) :
+    (rebuild h s0 (runS h (empty δ π s0) ops)).models q = (runS h (empty δ π s0) ops).models q := by
+  obtain ⟨hd, hm⟩ := models_after_history h hi s0 q ops.reverse (by simpa using hc)
+  rw [List.reverse_reverse] at hd hm
+  obtain ⟨_, _, h3⟩ := foldl_fitQ h hi refitOrder
+    ({ settings := s0, data := (runS h (empty δ π s0) ops).data, models := fun _ => none } : Surr δ π)
+  unfold rebuild
+  rw [h3 q, hm]
+  have hin : q ∈ refitOrder := by cases q <;> simp [refitOrder]
+  simp only [hin, if_true, hd]
+  unfold fitted
+  cases hl : lastTrained q ops.reverse with
+  | none => rfl
+  | some t =>
+    have : Op.train q t ∈ ops := by
+      have : ∀ (l : List (Op δ π)), lastTrained q l = some t → Op.train q t ∈ l := by
+        intro l
+        induction l with
+        | nil => simp [lastTrained]
+        | cons op r ih =>
+          cases op with
+          | query _ => simp only [lastTrained]; intro hh; exact List.mem_cons_of_mem _ (ih hh)
+          | train q' t' =>
+            simp only [lastTrained]
+            by_cases hq : q' = q
+            · simp only [hq, if_true]; intro hh; cases hh; simp
+            · simp only [hq, if_false]; intro hh; exact List.mem_cons_of_mem _ (ih hh)
+      simpa using this _ hl
+    simp [hc q t this]
+
+/-- the code's hooks meet the hypothesis (non-vacuity), and the kernel is built from EVERY stored training point -/
+theorem code_inert : Inert (code π) := fun _ _ => rfl
+
+theorem fit_uses_every_training_point (s0 : Settings) (q : Q) (t : Train δ π) (ops : List (Op δ π))
+    (hc : ∀ q' t, Op.train q' t ∈ ops → t.cols ≠ 0) (hl : lastTrained q ops.reverse = some t) :
+    ((runS (code π) (empty δ π s0) ops).models q).map (·.nodes) = some t.points := by
+  have hm := (models_after_history (code π) code_inert s0 q ops.reverse (by simpa using hc)).2
+  rw [List.reverse_reverse] at hm
+  rw [hm, hl]
+  rfl
+
+/-! witnesses -/
+
+def s0T : Settings := { kernel := "cubic", normalize := true }
+
+/-- trainDiffusivity(x grid, T grid) then trainDrivingForce(x grid, single T) -/
+def twoThenOneAxis : List (Op Nat Nat) :=
+  [.train .diffusivity { payload := 0, points := [0, 1, 2, 3], cols := 2 },
+   .train .drivingForce { payload := 1, points := [0, 1], cols := 1 }]
+
+/-- with the code's hooks the rebuilt object is the original (instance of the theorem, non-vacuity) -/
+example : ∀ q, (rebuild (code Nat) s0T (runS (code Nat) (empty Nat Nat s0T) twoThenOneAxis)).models q
+    = (runS (code Nat) (empty Nat Nat s0T) twoThenOneAxis).models q :=
+  rebuild_equals_original (code Nat) code_inert s0T twoThenOneAxis (by
+    intro q' t hm
+    simp [twoThenOneAxis] at hm
+    rcases hm with ⟨_, rfl⟩ | ⟨_, rfl⟩ <;> simp)
+
+/-- VARIANT where a one-axis input switches `normalize` off in the shared settings: the diffusivity kernel of the
+original was fitted normalized, the one of the rebuilt object (driving force is refitted FIRST) is not -/
+theorem flip_rebuilt_differs :
+    ((runS (flipOnOneAxis Nat) (empty Nat Nat s0T) twoThenOneAxis).models .diffusivity).map (·.settings.normalize) = some true ∧
+    ((rebuild (flipOnOneAxis Nat) s0T (runS (flipOnOneAxis Nat) (empty Nat Nat s0T) twoThenOneAxis)).models .diffusivity).map
+      (·.settings.normalize) = some false := by
+  decide
+
+/-- … and the kernel of a quantity depends on what was trained before it -/
+theorem flip_depends_on_order :
+    ((runS (flipOnOneAxis Nat) (empty Nat Nat s0T) twoThenOneAxis.reverse).models .diffusivity).map (·.settings.normalize) = some false ∧
+    ((runS (flipOnOneAxis Nat) (empty Nat Nat s0T) (twoThenOneAxis.take 1)).models .diffusivity).map (·.settings.normalize) = some true := by
+  decide
+
+theorem flip_not_inert : ¬ Inert (flipOnOneAxis Nat) := by
+  intro h
+  have := h s0T 1
+  simp [flipOnOneAxis, s0T] at this
+
+/-- VARIANT where near-coincident rows (absolute tolerance 10, think 1e-3 in units of 1e-4) are removed before the fit:
+of the stored points 5, 10, 20, 40 only 20 and 40 reach the kernel -/
+theorem filter_drops_training_points :
+    ((runS (filterBeforeFit 10) (empty Nat Int s0T) [.train .drivingForce { payload := 0, points := [5, 10, 20, 40], cols := 1 }]).models
+      .drivingForce).map (·.nodes) = some [20, 40] := by
+  decide
+
+/-- the hypothesis "every training has at least one non-single axis" is needed: retraining a quantity on a single point
+stores the data but keeps the old kernel, and the rebuilt object has no kernel at all -/
+example :
+    let ops : List (Op Nat Nat) := [.train .drivingForce { payload := 0, points := [0, 1], cols := 1 },
+                                    .train .drivingForce { payload := 1, points := [0], cols := 0 }]
+    ((runS (code Nat) (empty Nat Nat s0T) ops).models .drivingForce).isSome = true ∧
+    ((rebuild (code Nat) s0T (runS (code Nat) (empty Nat Nat s0T) ops)).models .drivingForce).isSome = false := by
+  decide
+
+end surrogate_fit
+
 /-! ### non-vacuity -/
 
 /-- a state meeting the hypotheses of `precip_roundtrip`, and the theorem applied to it -/
